@@ -14,6 +14,7 @@ mod ctx;
 mod frame;
 mod gen;
 mod io;
+mod keys;
 mod props;
 
 use ctx::{Ctx, Tier};
